@@ -311,6 +311,10 @@ func CheckC14(c *Case, cov *Cov) []*Violation {
 			if cov != nil {
 				cov.Evaluations++
 			}
+			if reflect.DeepEqual(pristine.Goroutines, subject.Goroutines) && !reflect.DeepEqual(pristine, subject) {
+				add("snapshot-mutated", fmt.Sprintf("after operation %d (%s level %d) the snapshot differs from a freshly parsed twin outside its goroutines: RemoteGOROOT %q vs %q, RemoteGOPATHs %v vs %v, LocalGomods %v vs %v, LocalGOPATHs %v vs %v", i, op.Op, op.Level, subject.RemoteGOROOT, pristine.RemoteGOROOT, subject.RemoteGOPATHs, pristine.RemoteGOPATHs, subject.LocalGomods, pristine.LocalGomods, subject.LocalGOPATHs, pristine.LocalGOPATHs))
+				return vs
+			}
 			if !reflect.DeepEqual(pristine.Goroutines, subject.Goroutines) {
 				d := ""
 				for gi := range pristine.Goroutines {
@@ -399,7 +403,7 @@ func CheckC14(c *Case, cov *Cov) []*Violation {
 		return vs
 	}
 	for i, di := range ex.Shared {
-		if p := parseDoc(ex.Docs[di], ex.optsFor()); !reflect.DeepEqual(p.Goroutines, shared[i].Goroutines) {
+		if p := parseDoc(ex.Docs[di], ex.optsFor()); !reflect.DeepEqual(p, shared[i]) {
 			add("snapshot-mutated", fmt.Sprintf("shared snapshot %d differs from a freshly parsed twin after the interleaved tasks ran", i))
 			return vs
 		}
@@ -584,6 +588,12 @@ func RaceStageC14(seed uint64, rounds int) []*Violation {
 			base = os.TempDir()
 		}
 		tree, files := genTreeEnv(r, fmt.Sprintf("%s/verif-tree/c14race/%d/%d", base, seed, round))
+		// long sources: parsing them takes long enough for scans to overlap in it
+		for i := range tree.Files {
+			if strings.HasSuffix(tree.Files[i].Path, ".go") && strings.HasPrefix(tree.Files[i].Content, "package p") {
+				tree.Files[i].Content += bigSrcTail
+			}
+		}
 		if err := writeTreeFiles(tree.Dir, tree.Files); err != nil {
 			panic(err)
 		}
@@ -593,6 +603,64 @@ func RaceStageC14(seed uint64, rounds int) []*Violation {
 		}
 		for i := 0; i < nd; i++ {
 			ex.Shared = append(ex.Shared, i)
+		}
+		// scan storm: many private scans of the same sources at once (package
+		// level state in the source parser would be hit here), each compared
+		// with the serial result
+		{
+			got := make([][]string, 16)
+			bad := make(chan string, 64)
+			var wg sync.WaitGroup
+			gate := make(chan struct{})
+			for g := 0; g < 16; g++ {
+				wg.Add(1)
+				go func(g int) {
+					defer wg.Done()
+					<-gate // all at once: the first scans meet sources nobody has parsed yet
+					defer func() {
+						if p := recover(); p != nil {
+							select {
+							case bad <- fmt.Sprintf("goroutine %d panics: %v", g, p):
+							default:
+							}
+						}
+					}()
+					o := ex.optsFor()
+					for n := 0; n < 24; n++ {
+						i := (g + n) % len(ex.Docs)
+						got[g] = append(got[g], snapKey(parseDoc(ex.Docs[i], o)))
+					}
+				}(g)
+			}
+			close(gate)
+			wg.Wait()
+			// the serial reference is computed AFTER the storm, so that the storm's
+			// first scans meet sources nobody in this process has parsed yet
+			want := make([]string, len(ex.Docs))
+			for i, d := range ex.Docs {
+				want[i] = snapKey(parseDoc(d, ex.optsFor()))
+			}
+			for g := range got {
+				for n, k := range got[g] {
+					if i := (g + n) % len(ex.Docs); k != want[i] {
+						select {
+						case bad <- fmt.Sprintf("goroutine %d scan %d of input %d differs from the serial scan", g, n, i):
+						default:
+						}
+						break
+					}
+				}
+			}
+			close(bad)
+			for m := range bad {
+				exj0, _ := json.Marshal(ex)
+				vs = append(vs, &Violation{Prop: "C14", Clause: "C14.race", Case: &Case{Prop: "C14", Run: uint64(round), Seed: seed, Mode: "free-running", Extra: exj0}, Msg: "free-running scan storm: " + m})
+				break
+			}
+		}
+		if len(vs) > 0 {
+			os.RemoveAll(tree.Dir)
+			break
 		}
 		for t := 0; t < 16; t++ {
 			sc := c14Script(r, nd, nd, r.Range(2, 6))
@@ -645,48 +713,6 @@ func RaceStageC14(seed uint64, rounds int) []*Violation {
 			}
 			if !reflect.DeepEqual(want, t.results) {
 				vs = append(vs, &Violation{Prop: "C14", Clause: "C14.race", Case: c, Msg: fmt.Sprintf("free-running task %d: results differ from the serial run", i)})
-				break
-			}
-		}
-		// scan storm: many private scans of the same sources at once (package
-		// level state in the source parser would be hit here), each compared
-		// with the serial result
-		if len(vs) == 0 {
-			want := make([]string, len(ex.Docs))
-			for i, d := range ex.Docs {
-				want[i] = snapKey(parseDoc(d, ex.optsFor()))
-			}
-			bad := make(chan string, 64)
-			var wg sync.WaitGroup
-			for g := 0; g < 16; g++ {
-				wg.Add(1)
-				go func(g int) {
-					defer wg.Done()
-					defer func() {
-						if p := recover(); p != nil {
-							select {
-							case bad <- fmt.Sprintf("goroutine %d panics: %v", g, p):
-							default:
-							}
-						}
-					}()
-					o := ex.optsFor()
-					for n := 0; n < 60; n++ {
-						i := (g + n) % len(ex.Docs)
-						if got := snapKey(parseDoc(ex.Docs[i], o)); got != want[i] {
-							select {
-							case bad <- fmt.Sprintf("goroutine %d scan %d of input %d differs from the serial scan", g, n, i):
-							default:
-							}
-							return
-						}
-					}
-				}(g)
-			}
-			wg.Wait()
-			close(bad)
-			for m := range bad {
-				vs = append(vs, &Violation{Prop: "C14", Clause: "C14.race", Case: c, Msg: "free-running scan storm: " + m})
 				break
 			}
 		}
@@ -791,3 +817,12 @@ func shrinkC14(c *Case, still func(*Case) bool, budget int) *Case {
 	}
 	return cur
 }
+
+// bigSrcTail pads a generated source file with a few thousand lines.
+var bigSrcTail = func() string {
+	var b strings.Builder
+	for i := 0; i < 400; i++ {
+		fmt.Fprintf(&b, "\nfunc pad%d(a, b int) int {\n\treturn a*%d + b\n}\n", i, i)
+	}
+	return b.String()
+}()
